@@ -210,6 +210,7 @@ def run(tier):
                     differ('stdlib', repr(v)[:80], ref, got, {'value': repr(v)[:200], 'protocol': proto, 'remote': remote},
                            '%s:%s->%s' % (tname if ref[0] != got[0] else 'value', ref[0], got[0]))
     chk.sample({'kind': 'stdlib menu', 'values': [repr(v)[:40] for v in std_menu()[22:40]]})
+    late_copyreg(chk, differ)
 
     # ---- B. generated non-declaring hierarchies + graphs -----------------------
     n_h = 250 if thorough else 60
@@ -404,3 +405,64 @@ def replay(spec):
     import json
     print(json.dumps(spec, indent=1)[:4000])
     return 0
+
+
+def late_copyreg(chk, differ):
+    """Types made picklable through copyreg.pickle() *after* pyworkers.remote_pickle was imported (what a
+    library imported later, or application set-up code, does)."""
+    import copyreg
+    import threading
+    import vlib.genmod as genmod
+
+    class LateLocked:
+        """Not picklable by default (holds a lock); a reducer registered later makes it so."""
+        def __init__(self, v):
+            self.v = v
+            self.lock = threading.Lock()
+    LateLocked.__module__ = 'vlib.genmod'
+    LateLocked.__qualname__ = 'LateLocked'
+    genmod.LateLocked = LateLocked
+
+    class LateCached:
+        """Picklable by default, but its registered reducer drops a cache."""
+        def __init__(self, v):
+            self.v = v
+            self.cache = ['stale']
+    LateCached.__module__ = 'vlib.genmod'
+    LateCached.__qualname__ = 'LateCached'
+    genmod.LateCached = LateCached
+    genmod._mk_locked = lambda v: LateLocked(v)
+    genmod._mk_cached = lambda v: LateCached(v)
+
+    def red_locked(o):
+        LOG.append((None, 'LateLocked', 'copyreg-reducer', None))
+        return (genmod._rebuild_late, ('LateLocked', o.v))
+
+    def red_cached(o):
+        LOG.append((None, 'LateCached', 'copyreg-reducer', None))
+        return (genmod._rebuild_late, ('LateCached', o.v))
+
+    genmod._rebuild_late = _rebuild_late
+    copyreg.pickle(LateLocked, red_locked)
+    copyreg.pickle(LateCached, red_cached)
+    try:
+        for vi, g in enumerate([LateLocked(1), LateCached(2), [LateLocked(3), {'k': LateCached(4)}], (LateCached(5), LateCached(5))]):
+            for proto in (2, 3, 4, 5):
+                ref = roundtrip(pickle.dumps, pickle.loads, g, protocol=proto)
+                for remote in (True, False):
+                    got = roundtrip(lambda x, **kw: rp.dumps(x, remote=remote, **kw), rp.loads, g, protocol=proto)
+                    chk.case(('late-copyreg', vi, proto, remote))
+                    chk.count('late_copyreg_cases')
+                    if got != ref:
+                        k = 'outcome:%s->%s' % (ref[0], got[0]) if got[0] != ref[0] else ('shape' if got[1] != ref[1] else 'reducer-not-used')
+                        differ('late-copyreg', 'graph %d' % vi, ref, got, {'protocol': proto, 'remote': remote}, k)
+    finally:
+        copyreg.dispatch_table.pop(LateLocked, None)
+        copyreg.dispatch_table.pop(LateCached, None)
+
+
+def _rebuild_late(name, v):
+    import vlib.genmod as genmod
+    o = object.__new__(getattr(genmod, name))
+    o.v = v
+    return o
